@@ -63,10 +63,12 @@ def run_final(scratch, jobs, pure=False, nproc=14, timeout=1800):
 
 def replay_terminals(scratch, terms, length="+1w", pure=False, start=None):
     """Returns (n_replayed, mismatches[list of dict])."""
+    from datetime import datetime, timedelta
     jobs = []
-    kw = {"start": start} if start is not None else {}
+    base = start if start is not None else datetime(2024, 1, 1)          # a Monday 00:00
     for i, t in enumerate(terms):
-        jobs.append({"id": "u%06d" % i, "text": gen.render_abstract(t["project"], length=length, **kw)})
+        st = base + timedelta(minutes=t["project"].get("mow", 0))         # the project starts mow minutes into the week
+        jobs.append({"id": "u%06d" % i, "text": gen.render_abstract(t["project"], length=length, start=st)})
     got = run_final(scratch, jobs, pure=pure)
     mism = []
     for i, t in enumerate(terms):
